@@ -16,6 +16,16 @@ Definition res_toks (len : nat) (r : nat * sres * list kres) : list tok :=
 Definition sum_toks (ts : list tok) : nat :=
   fold_left (fun a t => match t with TN z => Nat.add a (Z.to_nat z) | _ => a end) ts O.
 
+(** the integers that follow the marker [m] up to the next identifier token *)
+Fixpoint take_zs (ts : list tok) : list Z :=
+  match ts with TN z :: r => z :: take_zs r | _ => [] end.
+Fixpoint zs_between (ts : list tok) (m : string) : list Z :=
+  match ts with
+  | [] => []
+  | TS n :: r => if n =? m then take_zs r else zs_between r m
+  | _ :: r => zs_between r m
+  end.
+
 Definition step_op (op : list tok) : list tok :=
   match op with
   | TS name :: args =>
@@ -37,6 +47,20 @@ Definition step_op (op : list tok) : list tok :=
     else if name =? "bigwritev" then
       match args with
       | _ :: sizes => let len := sum_toks (map (fun t => match t with TN z => TN (z / 65536) | _ => t end) sizes) in res_toks len (tcp_writev len [KWrote (Nat.div len 2)])
+      | _ => [TS "badop"] end
+    else if name =? "h2conv" then
+      (* h2conv <max> <ended> <seed> W <w>.. C <n>.. : per round "R <window after> <payload len>.. [E]", then "L <left>.." *)
+      match args with
+      | TN mx :: TN ended :: _ :: rest =>
+        let ws := zs_between rest "W" in
+        let cs := map (fun z => repeat 0%N (Z.to_nat z)) (zs_between rest "C") in
+        let blocks := map BChunk cs ++ (if (ended =? 0)%Z then [] else [BEnd]) in
+        let total := fold_left (fun a c => Nat.add a (List.length c)) cs O in
+        let '(rs, final) := h2_rounds (S (Nat.add total (Nat.add (List.length cs) 3))) (Z.to_nat mx) ws blocks in
+        flat_map (fun r : list dframe * Z =>
+                    [TS "R"; TN (snd r)] ++
+                    flat_map (fun fr => if f_end fr then [TS "E"] else [TN (Z.of_nat (List.length (f_payload fr)))]) (fst r)) rs
+        ++ [TS "L"] ++ flat_map (fun b => match b with BChunk d => [TN (Z.of_nat (List.length d))] | BEnd => [TS "E"] end) final
       | _ => [TS "badop"] end
     else [TS "badop"]
   | _ => [TS "badop"]
